@@ -515,6 +515,42 @@ def run_twosheet_fill(shape, fill, ctx, only=None):
             rec.fail(key, tags, inputs, obs_of(want), got, True)
 
 
+# ---------------------------------------------------------------- flags
+def run_flags(ctx):
+    """The numbers 1 and 0 in a range are numbers - also when the same
+    evaluator has read a cell holding TRUE or FALSE just before (a flag cell
+    outside the range, read first by the same formula or by an earlier
+    evaluation)."""
+    grids = (((1, 0), (2, 1), (0, 5)), ((1.0, 0.0), (1, 0), (3, 1.0)),
+             ((1, 1), (1, 1), (1, 1)), ((0, 0), (0, 0), (0, 0)))
+    r = render_piece(('r', 0, 0, 2, 1), force_range=True)
+    for gi, grid in enumerate(grids):
+        for flag in (True, False):
+            cells = {'Sheet1!K1': flag, 'Sheet1!K2': not flag}
+            for i, row in enumerate(grid):
+                for j, v in enumerate(row):
+                    cells['Sheet1!' + addr(i, j)] = v
+            probes, wants = ['=K1', '=K2'], [None, None]
+            for fn in FNS:
+                for form in ('IF(K1,%s,%s)' if flag else 'IF(K1,%s,%s)',):
+                    call = '%s(%s)' % (fn, r)
+                    probes.append('=' + (form % ((call, '-1') if flag
+                                                 else ('-1', call))))
+                    wants.append((fn, ref.aggregate(fn, [('range', grid)])))
+                probes.append('=%s(%s)' % (fn, r))
+                wants.append((fn, ref.aggregate(fn, [('range', grid)])))
+            obs = run_model(cells, probes)
+            for f, w, got in zip(probes, wants, obs):
+                if w is None:
+                    continue
+                key = 'C14/flags/%d/K1=%s/%s' % (gi, flag, f)
+                if agrees(w[0], w[1], got):
+                    ctx.ok(key, got, True)
+                else:
+                    ctx.fail(key, ['family:flag-read-first', 'fn:' + w[0]],
+                             {'family': 'flags'}, obs_of(w[1]), got, True)
+
+
 # ---------------------------------------------------------------- spellings
 def run_spellings(ctx):
     """A rectangle is the same rectangle when its corners are written in lower
@@ -727,7 +763,7 @@ def ncells(kind, shapes):
 
 def plan(tier):
     shards = [{'kind': 'change'}, {'kind': 'members'},
-              {'kind': 'spellings'}]
+              {'kind': 'spellings'}, {'kind': 'flags'}]
     for kind, shapes, alpha, vset, chunk in families(tier):
         total = len(alpha) ** ncells(kind, shapes)
         for lo in range(0, total, chunk):
@@ -756,6 +792,9 @@ def run_shard(shard, ctx):
         return
     if kind == 'spellings':
         run_spellings(ctx)
+        return
+    if kind == 'flags':
+        run_flags(ctx)
         return
     if kind == 'change':
         run_change(ctx)
@@ -795,6 +834,9 @@ def replay(inputs, ctx):
         return
     if inputs['family'] == 'spellings':
         run_spellings(ctx)
+        return
+    if inputs['family'] == 'flags':
+        run_flags(ctx)
         return
     if inputs['family'] == 'members':
         run_members(ctx)
